@@ -284,6 +284,8 @@ def tasks(tier, seed):
         for members in ([sts[0]], sts[:2], sts, [s for s in sts if s not in sk.absorbing]):
             T.append(Task('matrices/%s/%s' % (sk.name, '+'.join(map(str, members))), h_matrices, (sk, members), tier='B'))
     T.append(Task('rt/real-seeds', rt_real, (seed, 40 if tier == 'quick' else 300), tier='R', kind='rt'))
+    from specs import reuse as _reuse
+    T.append(Task('rt/object-reuse', _reuse.rt_planner_reuse, ('C03', ['LAOStar'], seed), tier='R', kind='rt', note='planner objects, earlier results and model objects across calls'))
     return T
 
 
